@@ -281,4 +281,5 @@ def run(ctx):
     shared.record_goes_to_the_table_it_names(ctx, '15')   # replay validates and applies an action against the table it names
     shared.record_sections_in_table_order(ctx, '16')     # table files of one record come into existence oldest first
     shared.lazily_created_files_dropped_leniently(ctx, '17')   # the recovered database keeps accepting commits: dropping a never-created table is not an error
+    shared.header_slot_written_last(ctx, '12')            # creation of a btree column survives a stop at any point
     shared.old_table_records_skipped(ctx, '11')   # a dropped table named by an old record must not make replay discard the log
